@@ -12,10 +12,12 @@ Definition b20_chk_sub := BoundedSpec.chk_sub.
 Definition b20_chk_timers := BoundedSpec.chk_timers.
 Definition b20_predicted := BoundedSpec.predicted.
 Definition b20_times_ok := BoundedSpec.btimes_ok.
+Definition b20_excess (t0 : N) (h : list BoundedModel.biter) : N :=
+  BoundedModel.b_excess (BoundedModel.state_after BoundedModel.PCode (BoundedModel.b_init t0) h).
 Extraction Language OCaml.
 Extraction "model.ml"
   HostresModel.run HostresModel.observe HostresModel.step HostresModel.st0 HostresModel.due_times HostresModel.canon_out
   HostresSpec.chk_C17 HostresSpec.sp_run HostresSpec.late HostresSpec.wf_hist HostresSpec.wakes_ok HostresSpec.out_match
-  b20_run b20_chk b20_chk_cache b20_chk_sub b20_chk_timers b20_predicted b20_times_ok
+  b20_run b20_chk b20_chk_cache b20_chk_sub b20_chk_timers b20_predicted b20_times_ok b20_excess
   Res.is_ok
   N.eqb N.add N.mul N.land N.div N.modulo N.leb N.ltb.
